@@ -4,7 +4,9 @@ import json, os, re, shutil, subprocess, sys, tempfile, time, hashlib
 VERIF = os.path.dirname(os.path.dirname(os.path.abspath(__file__)))
 SPEC = os.path.join(VERIF, "spec")
 HARNESS = os.path.join(VERIF, "harness")
-EVIDENCE = os.path.join(VERIF, "evidence")
+# VERIF_EVIDENCE_DIR / VERIF_REPO are used only by the seeded-change sweeps (bin/seedtest), which run the checks against a
+# scratch worktree of /repo without touching /repo or the committed evidence; the registered commands never set them.
+EVIDENCE = os.environ.get("VERIF_EVIDENCE_DIR") or os.path.join(VERIF, "evidence")
 REPLAYS = os.path.join(EVIDENCE, "replays")
 KNOWN = os.path.join(VERIF, "KNOWN_FINDINGS.json")
 
@@ -46,6 +48,13 @@ def build_harness(scratch, race=False):
         return _built[key]
     out = scratch.path("vh-race" if race else "vh")
     cmd = ["go", "build", "-tags", "verif"]
+    alt = os.environ.get("VERIF_REPO")
+    if alt:
+        modfile = scratch.path("alt-go.mod")
+        with open(modfile, "w") as f:
+            f.write(open(os.path.join(HARNESS, "go.mod")).read().replace("=> /repo", "=> " + alt))
+        open(scratch.path("alt-go.sum"), "w").close()
+        cmd += ["-modfile", modfile]
     if race:
         cmd.append("-race")
     cmd += ["-o", out, "./cmd/vh"]
